@@ -77,6 +77,8 @@ pub struct State {
     /// bytes accepted per `write` call at most (0 = unlimited), for short-write experiments
     pub max_write: usize,
     pub snaps: Option<Vec<(u64, Fs)>>,
+    /// snapshot only every n-th `write` operation (all other operations always)
+    pub snap_write_stride: u64,
 }
 
 #[derive(Clone)]
@@ -109,6 +111,7 @@ impl SimDir {
                 faults_fired: 0,
                 max_write: 0,
                 snaps: None,
+                snap_write_stride: 1,
             })),
             tracer,
             gate: Arc::new(Mutex::new(None)),
@@ -198,13 +201,14 @@ impl SimDir {
     }
 
     fn ev(&self, g: &mut State, role: &str, op: &str, path: &Path, extra: Value) {
-        if let Some(s) = g.snaps.as_mut() {
-            // a snapshot of the file system state *after* this operation
-            let fs = g.fs.clone();
-            s.push((g.opcount, fs));
-        }
         if self.quiet.load(std::sync::atomic::Ordering::SeqCst) {
             return;
+        }
+        if g.snaps.is_some() && (op != "write" || g.opcount % g.snap_write_stride.max(1) == 0) {
+            // a snapshot of the file system state *after* this operation
+            let fs = g.fs.clone();
+            let k = g.opcount;
+            g.snaps.as_mut().unwrap().push((k, fs));
         }
         let mut o = json!({"ev":"st","op":op,"path":self.tracer.path(path),"th":role,"k":g.opcount});
         if let (Value::Object(m), Value::Object(x)) = (&mut o, extra) {
